@@ -17,6 +17,7 @@ Definition Qlt_bool (a b : Q) : bool := negb (Qle_bool b a).
 Definition qmax (a b : Q) : Q := if Qlt_bool a b then b else a.     (* python max(a, b) *)
 Definition qmin (a b : Q) : Q := if Qlt_bool b a then b else a.     (* python min(a, b) *)
 Definition qsum (l : list Q) : Q := fold_right Qplus 0 l.
+Definition sumsp (l : list (Z * Q)) : Q := qsum (map snd l).   (* sum of (inverter id, set-point) pairs *)
 Definition qmaxl (l : list Q) : Q := match l with [] => 0 | x :: t => fold_left qmax t x end.
 Definition qminl (l : list Q) : Q := match l with [] => 0 | x :: t => fold_left qmin t x end.
 
@@ -151,7 +152,7 @@ Fixpoint cover_all (ds : list Q) (l : list slot) : list slot * list Q :=
   end.
 
 (* ---------------------------------------------------------------- excess application, greedy top-up *)
-Record gpower := mkG { gp_src : pgroup; gp_upper : Q; gp_power : Q }.
+Record gpower := mkG { gp_src : pgroup; gp_lower : Q; gp_upper : Q; gp_power : Q }.   (* _Power(upper_bound, power, lower_bound) *)
 
 Definition slot_power (s : slot) : Q :=
   match s_kind s with
@@ -160,7 +161,7 @@ Definition slot_power (s : slot) : Q :=
   | KDeficit _ => s_min s
   end.
 Definition apply_excess (l : list slot) : list gpower :=
-  map (fun s => mkG (s_src s) (s_upper s) (slot_power s)) l.
+  map (fun s => mkG (s_src s) (s_min s) (s_upper s) (slot_power s)) l.
 
 Fixpoint greedy_loop (rem : Q) (l : list gpower) : list gpower * Q :=
   match l with
@@ -170,7 +171,7 @@ Fixpoint greedy_loop (rem : Q) (l : list gpower) : list gpower * Q :=
       then let '(t', r) := greedy_loop rem t in (g :: t', r)
       else let add := qmin (gp_upper g - gp_power g) rem in
            let '(t', r) := greedy_loop (rem - add) t in
-           (mkG (gp_src g) (gp_upper g) (gp_power g + add) :: t', r)
+           (mkG (gp_src g) (gp_lower g) (gp_upper g) (gp_power g + add) :: t', r)
   end.
 Definition greedy (rem : Q) (l : list gpower) : list gpower * Q :=
   if czero rem then (l, rem) else greedy_loop rem l.
@@ -196,11 +197,19 @@ Fixpoint split_loop (rem : Q) (l : list pinv) : list (Z * Q) * Q :=
       else let '(t', r) := split_loop rem t in ((pi_id i, 0) :: t', r)
   end.
 
-Definition split_group (g : gpower) : list (Z * Q) * Q :=
+Definition split_raw (g : gpower) : list (Z * Q) * Q :=
   match pg_invs (gp_src g) with
   | [i] => ([(pi_id i, gp_power g)], 0)
   | invs => split_loop (gp_power g) (sort_invs invs)
   end.
+
+(* a set whose inverters cannot take its minimum power is not used at all:
+   `if assigned < lower_bound and not math.isclose(assigned, lower_bound)` *)
+Definition guard_ok (assigned lower : Q) : bool := negb (Qlt_bool assigned lower) || isclose assigned lower.
+Definition split_group (g : gpower) : list (Z * Q) * Q :=
+  let '(d, r) := split_raw g in
+  if guard_ok (sumsp d) (gp_lower g) then (d, r)
+  else (map (fun a => (fst a, 0)) d, gp_power g).
 
 (* per battery group: its data, its inverters' set-points, the part of its power no inverter took *)
 Record gres := mkGR { gr_src : pgroup; gr_sp : list (Z * Q); gr_left : Q }.
@@ -214,7 +223,7 @@ Fixpoint split_all (l : list gpower) : list gres * Q :=
 
 (* ---------------------------------------------------------------- _distribute_power *)
 Inductive label := LAllZero | LZeroSkip | LDeficit | LDeficitUncovered | LGreedy | LMultiInverter
-                 | LSplitLeftover | LSupply | LTinyRequest | LNegExcess | LNegLeftover.
+                 | LSplitLeftover | LSupply | LTinyRequest | LNegExcess | LNegLeftover | LSetUnused.
 
 Record result := mkR { res_groups : list gres;   (* per battery group, in processing order *)
                        res_rem : Q; res_trace : list label }.
@@ -257,7 +266,8 @@ Definition core (gs : list pgroup) (p : Q) : option result :=
                ++ flag (existsb (fun g => (1 <? length (pg_invs (gp_src g)))%nat) pw) LMultiInverter
                ++ flag (negb (Qeq_bool srem 0)) LSplitLeftover
                ++ flag (existsb (fun s => match s_kind s with KExcess e => Qlt_bool e 0 | _ => false end) sl) LNegExcess
-               ++ flag (Qlt_bool lo 0) LNegLeftover)).
+               ++ flag (Qlt_bool lo 0) LNegLeftover
+               ++ flag (existsb (fun g => negb (guard_ok (sumsp (fst (split_raw g))) (gp_lower g))) pw) LSetUnused)).
 
 (* ---------------------------------------------------------------- distribute_power *)
 Definition neg_result (r : result) : result :=
@@ -292,7 +302,7 @@ Definition label_eqb (a b : label) : bool :=
   match a, b with
   | LAllZero, LAllZero | LZeroSkip, LZeroSkip | LDeficit, LDeficit | LDeficitUncovered, LDeficitUncovered
   | LGreedy, LGreedy | LMultiInverter, LMultiInverter | LSplitLeftover, LSplitLeftover | LSupply, LSupply
-  | LTinyRequest, LTinyRequest | LNegExcess, LNegExcess | LNegLeftover, LNegLeftover => true
+  | LTinyRequest, LTinyRequest | LNegExcess, LNegExcess | LNegLeftover, LNegLeftover | LSetUnused, LSetUnused => true
   | _, _ => false
   end.
 Definition has_label (l : label) (r : result) : bool := existsb (label_eqb l) (res_trace r).
